@@ -277,6 +277,7 @@ def main(argv=None):
             prop_id, args.tier, args.seed, m['shards'], m['evaluations'], m['distinct_nontrivial'], wall))
         if os.environ.get('VERIF_VERBOSE'):
             import collections
+            print('  shard walls: %s' % ' '.join('%s:%.0fs' % (r['shard'], r['wall']) for r in results))
             cc = collections.Counter()
             ex = {}
             for (c, r), n in m['violation_counts'].items():
